@@ -83,7 +83,7 @@ def run(res, tier, seed, shard, nshards):
                 for n in (65536, 65537, 70000, 131072) + ((1 << 20,) if tier == "thorough" else ()):
                     cases.append(("len", fin, op, mask, 127, n))
     # (b)/(c) random multi-frame streams
-    n_rand = 600 if tier == "quick" else 12000
+    n_rand = 600 if tier == "quick" else 80000
     for i in range(n_rand):
         cases.append(("multi", i))
     nseg = 1 if tier == "quick" else 4
